@@ -177,6 +177,11 @@ pub fn run(thorough: bool) -> Vec<Part> {
         let limits = Limits { max_states: if thorough { 6_000_000 } else { 1_500_000 }, max_secs: if thorough { 3000.0 } else { 200.0 }, ..Default::default() };
         let st = bfs(&cfg, &limits, workers());
         record(&mut part, "alphabet", &st);
+        crate::explore::require_facts(&mut part, "alphabet", &st, &[
+            "read_ended_between_CR_and_LF", "read_ended_right_after_a_line_CRLF_inside_header_block",
+            "read_filled_the_offered_space_completely", "read_ended_exactly_at_body_end", "read_ended_inside_body",
+            "read_carried_bytes_past_a_completed_request", "empty_read_while_partial_line_buffered",
+            "read_filled_space_after_carry(line_crossed_buffer_edge)", "read_completed_two_or_more_requests"]);
         part.set("alphabet_pieces", json!(cfg.pieces.len()));
         for (v, _) in &st.violations {
             part.violations.push(v.clone());
